@@ -105,7 +105,7 @@ class PreparedStatementPlanner():
             ))
 
         parameters = []
-        for param in stmt.params:
+        for param in stmt.params or []:
             name = '?'
             parameters.append(dict(
                 alias=name,
@@ -504,6 +504,10 @@ class PreparedStatementPlanner():
         query = self.planner.query
 
         if params is not None:
+
+            if stmt.params is None:
+                # the statement was already executed ("prevent from second execution" below)
+                raise PlanningException("Can't execute statement: it was already executed")
 
             if len(params) != len(stmt.params):
                 raise PlanningException("Count of execution parameters don't match prepared statement")
